@@ -220,6 +220,13 @@ func CreateAuthenticators(cfg AuthConfig) []Authenticator {
 
 	if !cfg.Required {
 		auths = append(auths, &NoAuthAuthenticator{})
+	} else if len(auths) == 0 {
+		// Authentication is required but no usable credentials are configured
+		// (empty user list, or users without password and password hash).
+		// Fail closed: offer username/password backed by an empty credential
+		// store so that every login is rejected. Returning an empty list here
+		// would make NewServer/NewHandler fall back to no-auth.
+		auths = append(auths, NewUserPassAuthenticator(StaticCredentials{}))
 	}
 
 	return auths
